@@ -193,7 +193,7 @@ func genDecision(t *rapid.T, label string) harness.Decision {
 	case 1:
 		return harness.Decision{Kind: "smtp", Code: 451, Enh: [3]int{4, 3, 0}, Msg: "scripted 451"}
 	case 2:
-		return harness.Decision{Kind: "plain", Msg: "scripted plain error"}
+		return flavoured(t, label, harness.Decision{Kind: "plain", Msg: "scripted plain error"})
 	case 3:
 		// several lines, enhanced code left unset (sent as X.0.0 on every line)
 		return harness.Decision{Kind: "smtp", Code: 550, Msg: "scripted refusal\nwith a second line\nand a third"}
@@ -257,7 +257,7 @@ func genHistory(t *rapid.T, maxLen int, garbageCtl bool) hCase {
 			p.Result = harness.Decision{Kind: "smtp", Code: 452, Enh: [3]int{4, 3, 1}, Msg: fmt.Sprintf("early rejection %d", i)}
 			p.Read.Limit = 0
 		case 2:
-			p.Result = harness.Decision{Kind: "plain", Msg: fmt.Sprintf("plain data failure %d", i)}
+			p.Result = flavoured(t, fmt.Sprintf("dres%d", i), harness.Decision{Kind: "plain", Msg: fmt.Sprintf("plain data failure %d", i)})
 		case 3:
 			p.Result = harness.Decision{Kind: "smtp", Code: 554, Msg: fmt.Sprintf("data rejection %d\nin two lines, enhanced code unset", i)}
 		}
